@@ -49,8 +49,9 @@ ASSUMPTIONS = [
   "IOWorker.shutdown() on an already empty buffer never shuts the socket down; this is labelled, not judged (the property is about bytes)",
 ]
 EXHAUSTIVE_SCOPE = {
-  "quick": "both sides: 5^4 scripts {all, half, 0, EAGAIN, EPIPE} x 3 messages with sizes in {8, 5000} (ctl) / {8, 9000} (sw) x 4 op "
-           "placements (x 3 API mixes send/send_fast/mixed x shutdown yes/no on the switch side), second connection always present",
+  "quick": "both sides: 5^4 scripts {all, half, 0, EAGAIN, EPIPE} x 3 messages (ctl: every size sequence over {8, 5000}; sw: 4 size "
+           "sequences over {8, 9000}: all small, all big, alternating) x 4 op placements (x 3 API mixes send/send_fast/mixed x shutdown "
+           "yes/no on the switch side), second connection always present",
   "thorough": "as quick with 5^5 scripts x 4 messages",
 }
 
@@ -453,7 +454,8 @@ def _enum_sw(tier):
   builders = list(_sw_patterns(n, calls + 3))
   apimixes = [[0] * n, [1] * n, [(j + 1) & 1 for j in range(n)]]
   for script in itertools.product(OUT5, repeat=calls):
-    for sizes in itertools.product([8, 9000], repeat=n):
+    # the worker offers its whole buffer in one call, so only the shape of the size sequence matters here
+    for sizes in ([8] * n, [9000] * n, [8 if j & 1 else 9000 for j in range(n)], [9000 if j & 1 else 8 for j in range(n)]):
       for b in builders:
         for apis in apimixes:
           for shutdown in (0, 1):
@@ -462,66 +464,115 @@ def _enum_sw(tier):
 
 
 # --------------------------------------------------------------------------- Hypothesis
+#
+# A case is decoded constructively from one byte string, three bytes per choice (one cheap draw; composite strategies with a
+# draw per field cost ten times the run itself).  Reading past the end yields 0, and 0 always decodes to the
+# simplest choice (one connection, "all", 8 bytes, no extra ops), so the list shrinks towards small cases.
+# What is stored, replayed and shown is the decoded case.
 
-_SIZES = st.one_of(
-  st.sampled_from([8, 9, 64, 511, 512, 513, 4095, 4096, 4097, 8191, 8192, 8193, 12288, 16384, 65535, 65536, 70000]),
-  st.integers(8, 70000), st.integers(8, 200))
-_OUTCOME = st.one_of(
-  st.sampled_from(["all", "all", "half", "half", "most", "zero", "eagain", "eagain", 1, 7, 8, 100, 4095, 4096, 4097, 8191, 8192]),
-  st.integers(0, 70000))
+_SIZE_TABLE = [8, None, 9, 64, None, 512, 513, 4095, 4096, 4097, None, 8191, 8192, 8193, 12288, 16384, None, 65535, 65536, 70000]
+_OUT_TABLE = ["all", "half", "eagain", "zero", "most", "half", "eagain", None, 1, 7, 8, 100, 4095, 4096, 4097, 8191, 8192, "all", None, "half"]
+_GAPS = [0, 1, 0, 2, 1, 3, 0, 4]
 
 
-@st.composite
-def _script(draw, maxlen):
-  s = draw(st.lists(_OUTCOME, min_size=0, max_size=maxlen))
-  if draw(st.integers(0, 9)) < 3:
-    s.insert(draw(st.integers(0, len(s))), draw(st.sampled_from(list(SP.FATALS))))
+class _Genome(object):
+  def __init__(self, g):
+    self.g, self.i = g, 0
+
+  def take(self, n):
+    v = int.from_bytes(self.g[self.i:self.i + 3], "big")     # b"" past the end -> 0
+    self.i += 3
+    return v % n
+
+
+def _g_script(g, maxlen):
+  s = []
+  for _ in range(g.take(maxlen + 1)):
+    o = _OUT_TABLE[g.take(len(_OUT_TABLE))]
+    s.append(g.take(70001) if o is None else o)
+  if g.take(10) in (1, 2, 3):
+    s.insert(g.take(len(s) + 1), SP.FATALS[g.take(2)])
   return s
 
 
-@st.composite
-def _ctl_case(draw, tier):
-  nc = draw(st.sampled_from([1, 2, 2, 2]))
-  maxlen = 10 if tier == "quick" else 14
-  conns = [{"hs": draw(st.booleans()), "script": draw(_script(maxlen))} for _ in range(nc)]
+def _g_size(g):
+  v = _SIZE_TABLE[g.take(len(_SIZE_TABLE))]
+  return 8 + g.take(69993) if v is None else v
+
+
+def _decode_ctl(genome, maxlen):
+  g = _Genome(genome)
+  nc = 1 if g.take(4) == 0 else 2
+  lockpts = bool(g.take(2))
+  conns = [{"hs": bool(g.take(2)), "script": _g_script(g, maxlen)} for _ in range(nc)]
   allmask = (1 << nc) - 1
-  exc = draw(st.integers(0, 7)) == 0
-  nsend = draw(st.integers(1, MAX_MSGS))
-  go = st.builds(lambda w, e: ["go", w, e],
-                 st.sampled_from([allmask] * 4 + list(range(allmask + 1))),
-                 st.sampled_from([0] * 3 + list(range(allmask + 1))) if exc else st.just(0))
-  other = st.one_of(go, go, go, st.just(["visit"]))
-  ops = list(draw(st.lists(other, max_size=2)))
+  exc = g.take(8) == 1
+  nsend = 1 + g.take(MAX_MSGS)
+
+  def others(k):
+    r = []
+    for _ in range(k):
+      kind = g.take(5)
+      if kind == 4:
+        r.append(["visit"])
+      else:
+        w = g.take(2 * (allmask + 1))
+        w = allmask if w > allmask else allmask - w       # 0 -> everything writable
+        e = g.take(2 * (allmask + 1)) if exc else 0
+        r.append(["go", w, e if e <= allmask else 0])
+    return r
+
+  ops = others(g.take(3))
   for _ in range(nsend):
-    ops.append(["send", draw(st.integers(0, nc - 1)), draw(_SIZES), int(draw(st.integers(0, 4)) == 0)])
-    ops.extend(draw(st.lists(other, max_size=4)))
-  return {"side": "ctl", "lockpts": draw(st.booleans()), "conns": conns, "ops": ops}
+    ops.append(["send", g.take(nc), _g_size(g), int(g.take(5) == 1)])
+    ops.extend(others(_GAPS[g.take(len(_GAPS))]))
+  return {"side": "ctl", "lockpts": lockpts, "conns": conns, "ops": ops}
 
 
-@st.composite
-def _sw_case(draw, tier):
-  nw = draw(st.sampled_from([1, 2, 2]))
-  maxlen = 10 if tier == "quick" else 14
-  workers = [draw(_script(maxlen)) for _ in range(nw)]
+def _decode_sw(genome, maxlen):
+  g = _Genome(genome)
+  nw = 1 if g.take(3) == 0 else 2
+  workers = [_g_script(g, maxlen) for _ in range(nw)]
   allmask = (1 << nw) - 1
-  fastmode = draw(st.sampled_from([0, 0, 1, 2]))     # never / always / mixed
-  nsend = draw(st.integers(1, MAX_MSGS))
-  loop = st.builds(lambda w: ["loop", w], st.sampled_from([allmask] * 4 + list(range(allmask + 1))))
-  ops = list(draw(st.lists(loop, max_size=2)))
+  fastmode = [0, 1, 2, 0][g.take(4)]                # never / always / mixed
+
+  def loops(k):
+    r = []
+    for _ in range(k):
+      w = g.take(2 * (allmask + 1))
+      r.append(["loop", allmask if w > allmask else allmask - w])
+    return r
+
+  nsend = 1 + g.take(MAX_MSGS)
+  ops = loops(g.take(3))
   for _ in range(nsend):
-    fast = fastmode == 1 or (fastmode == 2 and draw(st.booleans()))
-    ops.append(["send", draw(st.integers(0, nw - 1)), draw(_SIZES), int(fast)])
-    ops.extend(draw(st.lists(loop, max_size=4)))
-  tail = draw(st.integers(0, 3))
-  if tail == 0:
-    ops.append(["shutdown", draw(st.integers(0, nw - 1))])
-  elif tail == 1:
-    ops.append(["close", draw(st.integers(0, nw - 1))])
-    ops.extend(draw(st.lists(loop, max_size=2)))
-    if draw(st.booleans()):
-      ops.append(["close", draw(st.integers(0, nw - 1))])
-  ops.extend(draw(st.lists(loop, max_size=3)))
+    fast = fastmode == 1 or (fastmode == 2 and g.take(2) == 1)
+    ops.append(["send", g.take(nw), _g_size(g), int(fast)])
+    ops.extend(loops(_GAPS[g.take(len(_GAPS))]))
+  tail = g.take(4)
+  if tail == 1:
+    ops.append(["shutdown", g.take(nw)])
+  elif tail == 2:
+    ops.append(["close", g.take(nw)])
+    ops.extend(loops(g.take(3)))
+    if g.take(2):
+      ops.append(["close", g.take(nw)])
+  ops.extend(loops(g.take(4)))
   return {"side": "sw", "workers": workers, "ops": ops}
+
+
+def _genomes():
+  return st.binary(min_size=90, max_size=420)
+
+
+def _ctl_case(tier):
+  maxlen = 10 if tier == "quick" else 14
+  return _genomes().map(lambda g: _decode_ctl(g, maxlen))
+
+
+def _sw_case(tier):
+  maxlen = 10 if tier == "quick" else 14
+  return _genomes().map(lambda g: _decode_sw(g, maxlen))
 
 
 def plan(tier):
@@ -529,6 +580,6 @@ def plan(tier):
   return [
     Enum("ctl-grid", lambda: _enum_ctl(tier), shards=16),
     Enum("sw-grid", lambda: _enum_sw(tier), shards=16),
-    Hyp("ctl-scripts", lambda: _ctl_case(tier), examples=4000 if q else 300000, shards=16),
-    Hyp("sw-scripts", lambda: _sw_case(tier), examples=4000 if q else 300000, shards=16),
+    Hyp("ctl-scripts", lambda: _ctl_case(tier), examples=8000 if q else 400000, shards=16),
+    Hyp("sw-scripts", lambda: _sw_case(tier), examples=8000 if q else 400000, shards=16),
   ]
